@@ -183,7 +183,8 @@ def run(chk):
     chk.require(hits.get('exit:' + m, 0) > 0, f'vacuous: manager {m} never left')
   for k in ('exit:ExitNormal', 'exit:ExitByException', 'propagate', 'exit:ctxprop', 'dont_care:wrap',
             'exit_outcome:raised', 'exit_outcome:suppressed', 'exit_outcome:propagated', 'exit_callback_run',
-            'enter_refused:dyn', 'enter_refused:detour', 'end_early', 'inner_fault_raised:detour',
+            'enter_refused:dyn', 'enter_refused:detour', 'enter_refused:ldtypes', 'enter_refused:catch',
+            'enter_refused:wrap', 'end_early', 'inner_fault_raised:detour',
             'inner_fault_raised:dyn', 'inner_fault_raised:viewopt', 'handle_checked:perm', 'handle_checked:detour',
             'handle_checked:viewopt', 'handle_checked:ctx', 'handle_checked:timeit'):
     chk.require(hits.get(k, 0) > 0, f'vacuous: {k} never happened')
